@@ -35,12 +35,11 @@ var solvers = []solverSpec{
 	{"z3-new/seed1", func(f string, t int) []string {
 		return []string{"z3-new", fmt.Sprintf("-T:%d", (t+999)/1000), "smt.random_seed=1", f}
 	}, nil},
-	{"z3-new/seed7", func(f string, t int) []string {
-		return []string{"z3-new", fmt.Sprintf("-T:%d", (t+999)/1000), "smt.random_seed=7", f}
+	{"z3-new/norel", func(f string, t int) []string {
+		return []string{"z3-new", fmt.Sprintf("-T:%d", (t+999)/1000), "smt.relevancy=0", "smt.random_seed=7", f}
 	}, nil},
-	{"z3-new/ematch", func(f string, t int) []string {
-		return []string{"z3-new", fmt.Sprintf("-T:%d", (t+999)/1000), "smt.mbqi=false", "smt.random_seed=3", f}
-	}, nil},
+	// NOTE: smt.bv.solver=2 (int-blasting) decides the parsers' 64-bit length arithmetic in milliseconds, but it
+	// answered unsat on a satisfiable cover query here (z3 5.1.0) - unsound, so it is NOT used.
 	{"z3", func(f string, t int) []string { return []string{"z3", fmt.Sprintf("-T:%d", (t+999)/1000), f} }, nil},
 	{"cvc5", func(f string, t int) []string {
 		return []string{"cvc5", "--lang=smt2", fmt.Sprintf("--tlimit=%d", t), f}
